@@ -28,9 +28,43 @@ def run(ctx):
     tree(ctx, fx)
     who(ctx, fx)
     executors(ctx, fx)
+    counted(ctx, fx)
     mo.check_rows(ctx, fx, "C04", mo.TERMINATION_ROWS, floor=8)
     mo.check_atomic_fields(ctx, fx, "C04", [r for r in mo.MUST_BE_ATOMIC if "TokenHolder" in r[0]] +
                            mo.MUST_BE_ATOMIC_TERMINATION)
+
+
+def counted(ctx, fx):
+    ctx.rule("C04.exec.work-counted-before-abortable-call",
+             "runQueueDispatch: every item popped is counted (++s.num) before doProcess is called - doProcess does not return "
+             "when the iteration aborts, and an attempt that parked its item in an abort queue must still report the thread as "
+             "having worked, otherwise all threads report idle while the only remaining work sits in abort queues and the "
+             "detector announces termination; runQueue returns s.num > 0")
+    n = 0
+    for f in [g for g in fx.functions if g["qn"] == FE + "::runQueueDispatch" and g["kind"] == "inst"]:
+        fn = ctx.fn(f)
+        al = fn.aliases()
+        dp = is_call(name="doProcess")
+        cnt = lambda e: e.get("k") == "assign" and S(e.get("lhs"), al).endswith(".num") and e.get("op") in ("++", "+=")
+        det = []
+        if not any(True for _ in fn.events(dp)):
+            continue
+        n += 1
+        if not any(True for _ in fn.events(cnt)):
+            det.append("popped items are never counted")
+        # from every pop, doProcess is not reachable without the count
+        for p, e in fn.events(lambda e: e.get("k") == "call" and e.get("name") == "pop"):
+            if fn.reaches_without(dp, cnt, starts=[fn.after(p)]):
+                det.append("doProcess is reachable from the pop at line %s before the item is counted: an aborted attempt is "
+                           "not reported as work" % e.get("l"))
+        ctx.ob("C04.exec.work-counted-before-abortable-call", FE + "::runQueueDispatch", not det, "; ".join(sorted(set(det))),
+               fn.loc(), f.get("targs", "")[-60:], fnkey=f["key"])
+    for f in [g for g in fx.functions if g["qn"] == FE + "::runQueue" and g["kind"] == "inst"][:40]:
+        fn = ctx.fn(f)
+        rets = {S(e.get("e")) for _, e in fn.events(lambda e: e["k"] == "ret")}
+        ctx.ob("C04.exec.work-counted-before-abortable-call", FE + "::runQueue", rets == {"(s.num > 0)"},
+               "returns %s" % sorted(rets), fn.loc(), f.get("targs", "")[-60:], fnkey=f["key"])
+    ctx.floor("runQueueDispatch instantiations", n, 20)
 
 
 def ring(ctx, fx):
